@@ -265,7 +265,8 @@ def run(ctx: Ctx) -> None:
     txt = norm(ga)
     from ..scanloop import walks
     ws, _, _ = walks(lex)
-    ok = "new_tokbuf.extend(tokbuf)" in txt and "self.tokbuf = new_tokbuf" in txt
+    from ..scanloop import kept_restored
+    ok = kept_restored(ga)
     ctx.ob("R9.7", "lexer:LexerTokenStream.get_doxygen_after|rest of the buffer re-queued", ok, msg="the trailing-comment scan does not put the unscanned rest of the buffer back", node=ga, mod=lex, nontrivial=False)
     for cname in sorted({w.cls for w in ws if w.cls.startswith("real token")}):
         lost = [w for w in ws if w.cls == cname and not w.kept]
